@@ -369,3 +369,35 @@ Definition py_eq_int (v : jv) (c : Z) : bool :=
   | _ => false
   end.
 Definition py_eq_str (v : jv) (s : str) : bool := match v with JStr t => str_eqb t s | _ => false end.
+
+(* ------------------------------------------------------------------ SQLBuilder.build_json_path: the key under which the composite bind parameter of a
+   parameterised JSON path is registered (SQLBuilder.make_param keeps one parameter per key and query):
+       paramkey = tuple(item.paramkey if isinstance(item, Param) else None if type(item.value) is slice else item.value for item in items) *)
+Inductive jitem := IParam (id : nat) | ILit (k : pkey) | IEllipsis | ISlice.      (* external expression | constant key / index | ... | [:] *)
+Inductive kitem := KP (id : nat) | KV (k : pkey) | KEll | KNone.
+
+Definition paramkey_item (i : jitem) : kitem :=
+  match i with IParam id => KP id | ILit k => KV k | IEllipsis => KEll | ISlice => KNone end.
+Definition paramkey (items : list jitem) : list kitem := map paramkey_item items.
+
+(* the path a parameterised path denotes once the external values are known *)
+Inductive ritem := RKey (k : pkey) | RAnyKey | RAnyIndex.
+Definition resolve (env : nat -> pkey) (items : list jitem) : list ritem :=
+  map (fun i => match i with IParam id => RKey (env id) | ILit k => RKey k | IEllipsis => RAnyKey | ISlice => RAnyIndex end) items.
+
+Definition pkey_eqb (a b : pkey) : bool :=
+  match a, b with KIdx i, KIdx j => i =? j | KKey s, KKey t => str_eqb s t | _, _ => false end.
+Definition kitem_eqb (a b : kitem) : bool :=
+  match a, b with KP i, KP j => Nat.eqb i j | KV x, KV y => pkey_eqb x y | KEll, KEll => true | KNone, KNone => true | _, _ => false end.
+Fixpoint kitems_eqb (a b : list kitem) : bool :=
+  match a, b with [], [] => true | x :: a', y :: b' => kitem_eqb x y && kitems_eqb a' b' | _, _ => false end.
+
+(* e.j[p] < e.j[q] between two JSON items on SQLite: both sides are py_json_unwrap(json_extract(..)) = the JSON TEXT of the items, which
+   SQLite orders as strings (memcmp) *)
+Fixpoint str_ltb (a b : str) : bool :=
+  match a, b with
+  | _, [] => false
+  | [], _ :: _ => true
+  | x :: a', y :: b' => if x <? y then true else if y <? x then false else str_ltb a' b'
+  end.
+Definition json_items_lt (a b : jv) : bool := str_ltb (jtext a) (jtext b).
